@@ -306,6 +306,15 @@ func regPrelude(pkg string) {
 		}
 		return nil, true
 	})
+	simple(p+"vLiveThreads", func(s *State, a []Value) Value {
+		n := 0
+		for _, t := range s.threads {
+			if !t.done {
+				n++
+			}
+		}
+		return c64(n)
+	})
 	simple(p+"vThreadID", func(s *State, a []Value) Value { return c64(s.thread().id) })
 	simple(p+"vHeldLocks", func(s *State, a []Value) Value { return c64(len(s.thread().locks)) })
 }
